@@ -284,7 +284,7 @@ C02_Step ==
     [][ \A x \in Alg, t \in Tg : \A N \in SUBSET prog.vals[x] :
           (Reply(x, t, "success", N, FALSE) /\ x \in que) =>
           LET C == Consumers(x, N) IN
-          /\ \A c \in C : Affected(c, t) \subseteq todo'[c] \cup doing'[c]
+          /\ \A c \in C : Affected(c, t) \subseteq todo'[c]
           /\ \A c \in Alg \ C : todo'[c] = todo[c] ]_vars
 
 =============================================================================
